@@ -333,7 +333,9 @@ func execRace(t *testing.T, job vx.Job) (res vx.Result) {
 	res.Count("race_distinct_result_vectors", child.Vectors)
 	res.Count("race_reports", int64(nRaces))
 	res.Key = "race:" + spec.Store + ":" + spec.Family + ":" + job.Args["shard"] + ":" + spec.Threads
-	res.NonTrivial = child.Runs > 0
+	// Non-trivial: for some scenario the free runs produced at least two different output vectors
+	// (the threads really interleaved in more than one way).
+	res.NonTrivial = child.Vectors > child.Scenarios
 	res.Outcome = "race-clean"
 	if nRaces > 0 {
 		res.Outcome = "race-reported"
